@@ -363,3 +363,67 @@ func QuoteJSONEscaped(s []byte) string {
 	sb.WriteByte('"')
 	return sb.String()
 }
+
+// NumericEqual compares two trees for C10's "same document, numerically equal numbers":
+// structure, order, keys and strings must be identical; an integer-typed number must be
+// matched exactly; a float64-typed number must be matched by a number that rounds to the
+// same float64 (the marshaller prints the shortest decimal that identifies the float, e.g.
+// 2^62 as 4611686018427388000, which read as an exact integer is a different number but
+// denotes the same float64).
+func NumericEqual(want, got *Node) bool {
+	if want == nil || got == nil {
+		return want == got
+	}
+	isNum := func(n *Node) bool { return n.K == KInt || n.K == KUint || n.K == KFloat }
+	if isNum(want) && isNum(got) {
+		if want.K == KFloat || got.K == KFloat {
+			return toFloat(want) == toFloat(got) || (toFloat(want) != toFloat(want) && toFloat(got) != toFloat(got))
+		}
+		return exactRat(want).Cmp(exactRat(got)) == 0
+	}
+	if want.K != got.K || len(want.Elems) != len(got.Elems) || string(want.S) != string(got.S) {
+		return false
+	}
+	for i := range want.Elems {
+		if want.K == KObj && string(want.Keys[i]) != string(got.Keys[i]) {
+			return false
+		}
+		if !NumericEqual(want.Elems[i], got.Elems[i]) {
+			return false
+		}
+	}
+	return true
+}
+
+func exactRat(n *Node) *big.Rat {
+	switch n.K {
+	case KInt:
+		return new(big.Rat).SetInt64(n.I)
+	case KUint:
+		return new(big.Rat).SetInt(new(big.Int).SetUint64(n.U))
+	}
+	r := new(big.Rat)
+	r.SetFloat64(n.F)
+	return r
+}
+
+func toFloat(n *Node) float64 {
+	if n.K == KFloat {
+		return n.F
+	}
+	f, _ := exactRat(n).Float64()
+	return f
+}
+
+// NumericEqualDocs applies NumericEqual root by root.
+func NumericEqualDocs(want, got []*Node) bool {
+	if len(want) != len(got) {
+		return false
+	}
+	for i := range want {
+		if !NumericEqual(want[i], got[i]) {
+			return false
+		}
+	}
+	return true
+}
